@@ -5,7 +5,7 @@ import numpy as np
 MIDI_BASE_CLASS = {"c": 0, "d": 2, "e": 4, "f": 5, "g": 7, "a": 9, "b": 11}
 # _MORPHETIC_BASE_CLASS = {'c': 0, 'd': 1, 'e': 2, 'f': 3, 'g': 4, 'a': 5, 'b': 6}
 # _MORPHETIC_OCTAVE = {0: 32, 1: 39, 2: 46, 3: 53, 4: 60, 5: 67, 6: 74, 7: 81, 8: 89}
-ALTER_SIGNS = {None: "", 0: "", 1: "#", 2: "x", -1: "b", -2: "bb"}
+ALTER_SIGNS = {None: "", 0: "", 1: "#", 2: "x", 3: "###", -1: "b", -2: "bb", -3: "bbb"}
 
 DUMMY_PS_BASE_CLASS = {
     0: ("c", 0),
